@@ -298,3 +298,73 @@ func VerifC01AnonymousTypes() {
 	vAssert(!dup, "two Go types of the models package are planned under the same name (the generated package does not compile)")
 	vAssert(kept, "planning the models replaced a definition of the input spec by an invented one")
 }
+
+func init() { vRegister("VerifC01OperationRefs", VerifC01OperationRefs) }
+
+// C01 (planning): structs invented in the operations package for anonymous parts of an inline
+// body refer to models through the models package - `models.X` with X the model's Go name
+// (x-go-name honoured) - never by a bare name that does not exist in the operations package.
+func VerifC01OperationRefs() {
+	sw := vBaseSpec()
+	cust := vObj(map[string]spec.Schema{"id": *spec.Int64Property()})
+	goName := []string{"", "Client", "Customer"}[vChoice("x-go-name", 3)]
+	if goName != "" {
+		cust.AddExtension("x-go-name", goName)
+	}
+	sw.Definitions = spec.Definitions{"customer": cust}
+	nestedFirst := vBool2("anonymousObjectNested")
+	props := map[string]spec.Schema{"who": *spec.RefSchema("#/definitions/customer")}
+	inner := vObj(map[string]spec.Schema{"n": *spec.StringProperty(), "owner": *spec.RefSchema("#/definitions/customer")})
+	if nestedFirst {
+		props["extra"] = inner
+	} else {
+		props["extra"] = *spec.ArrayProperty(&inner)
+	}
+	body := vObj(props)
+	p := spec.Parameter{}
+	p.Name, p.In, p.Schema = "body", "body", &body
+	op := &spec.Operation{}
+	op.ID = "putIt"
+	op.Parameters = []spec.Parameter{p}
+	op.Responses = vOKResponses()
+	vAddOp(sw, "PUT", "/x", op)
+	app, err := vPlanApp(sw)
+	vCover("planned")
+	if err != nil {
+		return
+	}
+	want := "Customer"
+	if goName != "" {
+		want = goName
+	}
+	want = "models." + want
+	found := 0
+	var visit func(s *GenSchema, depth int)
+	visit = func(s *GenSchema, depth int) {
+		if depth > 4 {
+			return
+		}
+		for i := range s.Properties {
+			pr := &s.Properties[i]
+			if pr.Name == "who" || pr.Name == "owner" {
+				found++
+				vAssert(pr.GoType == want || pr.GoType == "*"+want, "a struct of the operations package refers to a model by a name that is not qualified with the models package: "+pr.GoType)
+			}
+			visit(pr, depth+1)
+		}
+		if s.Items != nil {
+			visit(s.Items, depth+1)
+		}
+	}
+	g := app.Operations[0]
+	for i := range g.Params {
+		if g.Params[i].Schema != nil {
+			visit(g.Params[i].Schema, 0)
+		}
+	}
+	for i := range g.ExtraSchemas {
+		visit(&g.ExtraSchemas[i], 0)
+	}
+	vObserve("refs", found)
+	vAssert(found >= 2, "the planned operation lost the properties referring to the model")
+}
